@@ -29,7 +29,7 @@ class CallMixin:
 
     def new_dict(self, dt, st):
         r = self.alloc(st)
-        kh = self.eng.k_dhas(dt.k)
+        kh = self.eng.k_dhas(dt.k, dt.v)
         st.seth(kh, z3.Store(st.h(kh), r, z3.K(dt.k.sort(), z3.BoolVal(False))))
         return SV(T.Dict(dt.k, dt.v), r)
 
@@ -97,7 +97,7 @@ class CallMixin:
     # ------------------------------------------------------------------ dict primitives
     def dict_set(self, d, k, v, st):
         dt = d.t
-        kh, kv = self.eng.k_dhas(dt.k), self.eng.k_dval(dt.k, dt.v)
+        kh, kv = self.eng.k_dhas(dt.k, dt.v), self.eng.k_dval(dt.k, dt.v)
         kz = coerce(k, dt.k).z
         has = self.rd(st, kh, d.z)
         val = self.rd(st, kv, d.z)
@@ -106,7 +106,7 @@ class CallMixin:
 
     def dict_del(self, d, k, st):
         dt = d.t
-        kh = self.eng.k_dhas(dt.k)
+        kh = self.eng.k_dhas(dt.k, dt.v)
         kz = coerce(k, dt.k).z
         has = self.rd(st, kh, d.z)
         self.raise_if(st, z3.Not(z3.Select(has, kz)), 'KeyError', 'del')
@@ -301,6 +301,7 @@ class CallMixin:
             try:
                 o = st.old
                 tmp = o.copy()
+                tmp.locals = {**{k: v for k, v in st.locals.items() if v is not None}, **{k: v for k, v in o.locals.items() if v is not None}}
                 tmp.axd = st.axd
                 tmp.pc = st.pc
                 tmp.pcd = st.pcd
@@ -419,14 +420,32 @@ class CallMixin:
         return SV(v.t, z3.If(v.z >= 0, v.z, -v.z))
 
     def bi_min(self, n, st):
-        a, b = [self.ev(x, st) for x in n.args]
-        return ite(a.z <= b.z, a, b)
+        if len(n.args) == 2:
+            a, b = [self.ev(x, st) for x in n.args]
+            return ite(a.z <= b.z, a, b)
+        if len(n.args) == 1:
+            return self.extremum(self.ev(n.args[0], st), st, False)
+        raise Unsupported('min form')
 
     def bi_max(self, n, st):
         if len(n.args) == 2:
             a, b = [self.ev(x, st) for x in n.args]
             return ite(a.z >= b.z, a, b)
-        raise Unsupported('max over a sequence')
+        if len(n.args) == 1:
+            return self.extremum(self.ev(n.args[0], st), st, True)
+        raise Unsupported('max form')
+
+    def extremum(self, v, st, is_max):
+        """max / min of a non-empty sequence of ints: an element that bounds all the others."""
+        s = self.as_seq(v, st)
+        self.raise_if(st, seq_len(s) <= 0, 'ValueError', 'max of empty sequence')
+        m = z3.Int(fresh_name('max'))
+        w = z3.Int(fresh_name('argmax'))
+        k = z3.Int(fresh_name('k'))
+        st.assume(z3.And(0 <= w, w < seq_len(s), z3.Select(seq_arr(s), w) == m))
+        e = z3.Select(seq_arr(s), k)
+        st.assume(z3.ForAll([k], z3.Implies(z3.And(0 <= k, k < seq_len(s)), (m >= e) if is_max else (m <= e)), patterns=[e]))
+        return SV(T.Int, m)
 
     def bi_ord(self, n, st):
         v = self.ev(n.args[0], st)
@@ -498,7 +517,7 @@ class CallMixin:
 
     def bi_hasattr(self, n, st):
         v = self.ev(n.args[0], st)
-        nm = n.args[1].value
+        nm = self.eng.fid(n.args[1].value, v.t.cls if isinstance(v.t, T.Ref) else None)
         return SV(T.Bool, z3.Select(st.h(self.eng.k_has(nm)), v.z))
 
     def bi_getattr(self, n, st):
@@ -512,6 +531,7 @@ class CallMixin:
         if len(n.args) == 2:
             return self.getattr(v, nm, st, n)
         d = self.ev(n.args[2], st)
+        nm = self.eng.fid(nm, v.t.cls if isinstance(v.t, T.Ref) else None)
         has = z3.Select(st.h(self.eng.k_has(nm)), v.z)
         ft = self.eng.field_type(nm)
         val = SV(ft, z3.Select(st.h(self.eng.k_field(nm)), v.z))
@@ -528,7 +548,7 @@ class CallMixin:
     def bi_keys(self, n, st):
         """spec: key set of a dict."""
         d = self.ev(n.args[0], st)
-        return SV(T.Set(d.t.k), z3.Select(st.h(self.eng.k_dhas(d.t.k)), d.z))
+        return SV(T.Set(d.t.k), z3.Select(st.h(self.eng.k_dhas(d.t.k, d.t.v)), d.z))
 
     def bi_ghost(self, n, st):
         nm = n.args[0].value
@@ -735,7 +755,7 @@ class CallMixin:
     def dict_method(self, d, meth, n, st):
         args = [self.ev(a, st) for a in n.args]
         dt = d.t
-        has = self.rd(st, self.eng.k_dhas(dt.k), d.z)
+        has = self.rd(st, self.eng.k_dhas(dt.k, dt.v), d.z)
         val = self.rd(st, self.eng.k_dval(dt.k, dt.v), d.z)
         if meth == 'get':
             k = coerce(args[0], dt.k)
